@@ -170,9 +170,22 @@ func genIPs(r *gen.Rand) []string {
 	return []string{gen.Pick(r, []string{"d", "v", "v", "i"}), gen.Hex(h)}
 }
 
+// compose concatenates 0..max pieces of the alphabet: every adjacency of separators, blanks and
+// tokens occurs (fixed example lists never contained e.g. a blank list member ", ,").
+func compose(r *gen.Rand, alphabet []string, max int) string {
+	var sb strings.Builder
+	for i := r.Intn(max + 1); i > 0; i-- {
+		sb.WriteString(gen.Pick(r, alphabet))
+	}
+	return sb.String()
+}
+
 func genSubd(r *gen.Rand) []string {
 	h := gen.Pick(r, []string{"a.b.example.com", "example.com", "localhost", "a..b", ".", "a.b.c.d.e:8080", "www.example.co.uk",
 		"x.y", "a.", ".a", "1.2.3.4", "a.b.c"})
+	if r.Chance(1, 3) {
+		h = "a" + compose(r, []string{"a", ".", ".", "b", ":", "80", "example", "com"}, 7)
+	}
 	return []string{gen.Pick(r, cfgsPlain), gen.Hex(h), strconv.Itoa(r.Intn(7))}
 }
 
@@ -181,6 +194,15 @@ func genFresh(r *gen.Rand) []string {
 		"no-cache=", "no-cach", "max-age=0", "a no-cache", "no-cache no-cache", "NO-CACHE", "no-cache, no-store", "xno-cache, no-cache"})
 	nm := gen.Pick(r, []string{"", "*", "\"abc\"", "W/\"abc\"", "\"x\", \"abc\"", "\"x\" , W/\"abc\"", ",,", ", ", "\"abc\",", "abc", "a bc", " ,\"abc\"",
 		"\"x\",\"y\",\"abc\" ", "W/", "\"ab\"", "\"abcd\""})
+	if r.Bool() {
+		nm = "x" + compose(r, []string{"\"abc\"", "W/\"abc\"", "\"x\"", " ", " ", ",", ",", "*", "W/", "abc", "  ", "\t"}, 7)
+		if r.Bool() {
+			nm = nm[1:]
+		}
+	}
+	if r.Chance(1, 3) {
+		cc = compose(r, []string{"no-cache", "no-cache", " ", ",", "x", "=", "max-age=0", "no-", "cache", "NO-CACHE"}, 5)
+	}
 	etag := gen.Pick(r, []string{"", "\"abc\"", "W/\"abc\"", "abc", "\"abc\""})
 	return []string{gen.Pick(r, cfgsPlain), gen.Hex(cc), gen.Hex(nm), gen.Hex(etag)}
 }
@@ -188,6 +210,12 @@ func genFresh(r *gen.Rand) []string {
 func genEnc(r *gen.Rand) []string {
 	ce := gen.Pick(r, []string{"gzip", "x", "x, y", "x,y", ",", ", x", "x ,y", "gzip, x", "identity", "br", ",,", "a,b,c,d", "x,", " ,x", "x,  y",
 		"é", "x y", "deflate", "zstd", "brotli", "GZIP", "x, gzip"})
+	if r.Chance(1, 3) {
+		ce = "x" + compose(r, []string{"x", "gzip", " ", ",", ",", "  ", "y", "identity"}, 6)
+		if r.Bool() {
+			ce = ce[1:]
+		}
+	}
 	return []string{gen.Pick(r, cfgsPlain), gen.Hex(ce)}
 }
 
